@@ -144,6 +144,8 @@ MUTANTS = [
      "        for f in self.files:\n            if not f.exists():\n", "        for f in self.files[:1]:\n            if not f.exists():\n"),
     ("C17-strict-decode-again", "C17", P + "common/local_dataset.py",
      "                        output += f\"{stream_content.decode(errors='replace')}\"", "                        output += f\"{stream_content.decode()}\""),
+    ("C17-run-dir-not-opened-to-container-user", "C17", P + "common/local_dataset.py",
+     "            local_run_dir.chmod(0o777)\n", "            pass\n"),
     ("C17-assert-tempdir-again", "C17", P + "common/local_dataset.py",
      "            else Path(tempfile.gettempdir())", "            else Path(tempfile.tempdir)"),
 ]
